@@ -638,8 +638,19 @@ impl<T: Config> P2PSession<T> {
                 .pending_local_inputs
                 .get(&handle)
                 .expect("Missing local input while calling advance_frame().");
+            let previous_frame = self.local_connect_status[handle].last_frame;
             let actual_frame = self.sync_layer.add_local_input(handle, player_input);
             if actual_frame != NULL_FRAME {
+                // With input delay the very first input lands on a later frame and the input queue
+                // pads the frames before it with blank inputs. Those frames have to be sent as
+                // well: if local players have different delays, the frames in which only the
+                // low-delay player has a real input would otherwise never become complete, never
+                // be sent, and the remote peers would use blank inputs where we use real ones.
+                if previous_frame == NULL_FRAME {
+                    for frame in 0..actual_frame {
+                        self.queue_outgoing_local_input(handle, PlayerInput::blank_input(frame));
+                    }
+                }
                 let queued_input = PlayerInput::new(actual_frame, player_input.input);
                 self.local_connect_status[handle].last_frame = queued_input.frame;
                 self.queue_outgoing_local_input(handle, queued_input);
